@@ -226,6 +226,75 @@ def run_config(chk, facts, cfg):
     chk.stats["C01-c2:owners"] = sorted(owners)
     chk.floor("C01-c2", "alias / field instantiations of such types", n_inst, 1)
 
+    # ---- C01-g2: the guard of one confirmed explicit panic that lives in the caller ------------------------------------
+    chk.rule("C01-g2", "T-GUARD: `parse_entry`'s `Blend => unreachable!()` (a confirmed explicit panic of C01-g) stays dead: in every "
+                       "caller a comparison of the operator with `Operator::Blend` dominates the call to parse_entry (the test is made "
+                       "on every path to it), and the equal edge of such a comparison cannot reach the call")
+    PE = "read_fonts::tables::postscript::dict::parse_entry"
+    callers = [b for b in facts.all_bodies(RF) if any(t.callee == PE for _, t in b.calls())]
+    chk.anchor("C01-g2", "callers of dict::parse_entry", callers)
+
+    def promoted_variant(b, op):
+        # `&Operator::X` passed as a promoted constant -> "X"
+        l = op[1][0] if op[0] in ("c", "m") else None
+        for _ in range(5):
+            if l is None:
+                return None
+            sd = b.single_def(l)
+            if sd is None or hasattr(sd[2], "callee"):
+                return None
+            rv = sd[2]
+            if rv[0] == "use" and rv[1][0] == "k" and len(rv[1]) > 3 and isinstance(rv[1][3], str) and "promoted[" in rv[1][3]:
+                pb = facts.body(rv[1][3], _fuzzy=False)
+                if pb is None:
+                    return None
+                for _, _, st in pb.stmts():
+                    if st[0] == "A" and st[2][0] == "agg" and st[2][1][0] == "adt" and st[2][1][1].endswith("dict::Operator"):
+                        return st[2][1][3]
+                return None
+            if rv[0] in ("use", "ref"):
+                pl = rv[1][1] if rv[0] == "use" and rv[1][0] in ("c", "m") else (rv[2] if rv[0] == "ref" else None)
+                l = pl[0] if pl is not None and (not pl[1] or pl[1] == ["*"]) else None
+            else:
+                return None
+        return None
+    for b in callers:
+        pe_blocks = [bb for bb, t in b.calls() if t.callee == PE]
+        cmps = []
+        for bb, t in b.calls():
+            if t.callee.endswith("dict::Operator as core::cmp::PartialEq>::eq") and len(t.args) == 2:
+                if "Blend" in (promoted_variant(b, t.args[0]), promoted_variant(b, t.args[1])):
+                    # the block the call returns to switches on the result: `otherwise` is the equal edge
+                    nb = t.targets[0] if t.targets else None
+                    sw = b.blocks[nb].term if nb is not None else None
+                    eq_edge = sw.d[3] if sw is not None and sw.kind == "switch" else None
+                    cmps.append((bb, eq_edge))
+        for pb_ in pe_blocks:
+            dom = any(b.dominates(cb, pb_) for cb, _ in cmps)
+            # "cannot reach the call" within the same trip of the token loop: `continue` goes back to the loop head
+            from ..loops import natural_loops
+            hdrs = {l[0] for l in natural_loops(b) if b.dominates(l[0], pb_)}
+
+            def reaches(src, dst):
+                seen, st_ = set(), [src]
+                while st_:
+                    x = st_.pop()
+                    if x == dst:
+                        return True
+                    if x in seen or x in hdrs or b.blocks[x].cleanup:
+                        continue
+                    seen.add(x)
+                    st_.extend(b.blocks[x].term.targets)
+                return False
+            cut = any(e is not None and not reaches(e, pb_) for _, e in cmps)
+            chk.ob("C01-g2", f"{b.path.split('::dict::')[-1]}: {len(cmps)} comparisons with Operator::Blend; one dominates the parse_entry "
+                             f"call ({dom}), one cuts it off on equality ({cut})", dom and cut,
+                   key=f"{b.path}|blend-guard", file=b.file, line=b.blocks[pb_].term.line or b.lo, fn=b.path,
+                   detail="parse_entry panics (`unreachable!()`) when it is handed the `blend` operator; the caller no longer tests for "
+                          "it on every path to the call (or no longer leaves before the call when it is one): a DICT containing byte "
+                          "23 evaluated without a variation store panics")
+    chk.floor("C01-g2", "callers checked", len(callers), 1)
+
     # ---- C01-f -----------------------------------------------------------------------------------
     chk.rule("C01-f", "T-PURE: read-fonts forbids unsafe code and contains none; font-types/read-fonts have no mutable or "
                       "interior-mutable statics and make no time/env/random/thread calls; pointer-to-integer casts only feed differences")
